@@ -257,12 +257,20 @@ fn flate_lzw_filter(
     if predictor == 1 {
         Ok(ParseBuffer::new(decoded))
     } else if predictor == 2 {
-        // TIFF encoding
-        let row_length = match columns.checked_mul(colors) {
-            Some(n) => n,
+        // TIFF encoding: the samples are differenced, so their size
+        // matters.
+        if bitspercolumn != 8 && bitspercolumn != 16 {
+            let err = ErrorKind::TransformError(format!(
+                "TIFF predictor: unsupported bits per component {}",
+                bitspercolumn
+            ));
+            return Err(locate_value(err, loc.loc_start(), loc.loc_end()))
+        }
+        let row_length = match predictor_row_layout(colors, columns, bitspercolumn) {
+            Some((_, row_bytes)) => row_bytes,
             None => {
                 let err = ErrorKind::TransformError(
-                    "TIFF predictor: row size overflows for specified columns".to_string(),
+                    "TIFF predictor: invalid colors, columns or bits per component".to_string(),
                 );
                 return Err(locate_value(err, loc.loc_start(), loc.loc_end()))
             },
@@ -294,8 +302,20 @@ fn flate_lzw_filter(
             }
             // Predicts based on the sample to the left,
             // interleaved by colors.
-            for j in colors .. row_length {
-                row_data[j] = row_data[j] + row_data[j - colors];
+            if bitspercolumn == 16 {
+                // a sample is two bytes, most significant first
+                for s in colors .. row_length / 2 {
+                    let (j, l) = (2 * s, 2 * (s - colors));
+                    let left = u16::from(row_data[l].0) << 8 | u16::from(row_data[l + 1].0);
+                    let diff = u16::from(row_data[j].0) << 8 | u16::from(row_data[j + 1].0);
+                    let sample = diff.wrapping_add(left);
+                    row_data[j] = Wrapping((sample >> 8) as u8);
+                    row_data[j + 1] = Wrapping(sample as u8);
+                }
+            } else {
+                for j in colors .. row_length {
+                    row_data[j] = row_data[j] + row_data[j - colors];
+                }
             }
             // add to output
             for &e in &row_data {
